@@ -61,6 +61,48 @@ class Commuter(ast.NodeTransformer):
         return node
 
 
+class KwCaller(ast.NodeTransformer):
+    """f(a, b) -> f(x=a, y=b) for calls whose callee resolves inside the package (module-level functions by name, methods through self./cls.) and has no *args"""
+
+    def __init__(self, prog, mod):
+        self.prog, self.mod = prog, mod
+        self.cls = None
+        self.count = 0
+
+    def visit_ClassDef(self, node):
+        prev, self.cls = self.cls, self.mod.classes.get(node.name)
+        self.generic_visit(node)
+        self.cls = prev
+        return node
+
+    def visit_Call(self, node):
+        self.generic_visit(node)
+        from sa.model import FuncInfo
+        if not node.args or any(isinstance(a, ast.Starred) for a in node.args):
+            return node
+        callee = None
+        skip = 0
+        if isinstance(node.func, ast.Name):
+            t = self.prog.resolve_name(self.mod, node.func.id)
+            if isinstance(t, FuncInfo):
+                callee = t
+        elif isinstance(node.func, ast.Attribute) and isinstance(node.func.value, ast.Name) and node.func.value.id in ("self", "cls") and self.cls is not None \
+                and self.prog.mro(self.cls) is not None:
+            t = self.prog.lookup_method(self.cls, node.func.attr)
+            if isinstance(t, FuncInfo):
+                callee = t
+                skip = 0 if t.kind == "staticmethod" else 1
+        if callee is None or callee.node.args.vararg is not None or callee.node.args.posonlyargs:
+            return node
+        pn = [a.arg for a in callee.node.args.args][skip:]
+        if len(node.args) > len(pn) or any(k.arg in pn[:len(node.args)] for k in node.keywords if k.arg):
+            return node
+        node.keywords = [ast.keyword(arg=pn[i], value=a) for i, a in enumerate(node.args)] + list(node.keywords)
+        node.args = []
+        self.count += 1
+        return node
+
+
 class Renamer(ast.NodeTransformer):
     def __init__(self, suffix):
         self.suffix = suffix
@@ -112,6 +154,11 @@ class Renamer(ast.NodeTransformer):
 
 def build(suffix, mode="rename"):
     tmp = tempfile.mkdtemp(prefix="rename_", dir="/tmp")
+    prog = None
+    if mode == "kwcalls":
+        sys.path.insert(0, here)
+        from sa.model import load_program
+        prog = load_program()
     n_files = n_names = 0
     for root, dirs, files in os.walk("/repo/pybrops"):
         dirs[:] = [d for d in dirs if d != "__pycache__"]
@@ -125,7 +172,15 @@ def build(suffix, mode="rename"):
                 continue
             text = open(src, encoding="utf-8").read()
             tree = ast.parse(text)
-            r = Renamer(suffix) if mode == "rename" else Commuter()
+            if mode == "kwcalls":
+                relp = os.path.relpath(src, "/repo")
+                m_ = prog.by_relpath.get(relp)
+                if m_ is None:
+                    shutil.copy(src, dst)
+                    continue
+                r = KwCaller(prog, m_)
+            else:
+                r = Renamer(suffix) if mode == "rename" else Commuter()
             tree = r.visit(tree)
             ast.fix_missing_locations(tree)
             out = ast.unparse(tree)
@@ -175,6 +230,8 @@ def main():
     tmp, nf, nn = build(suffix, mode)
     if mode == "rename":
         print("renamed copy: %d files, %d local-name occurrences renamed (suffix %s), re-emitted by ast.unparse" % (nf, nn, suffix))
+    elif mode == "kwcalls":
+        print("keyword-call copy: %d files, %d calls of package functions / own methods rewritten from positional to keyword arguments, re-emitted by ast.unparse" % (nf, nn))
     else:
         print("commuted copy: %d files, %d products / comparisons with their operands exchanged (a*b -> b*a, a<b -> b>a), re-emitted by ast.unparse" % (nf, nn))
     try:
